@@ -58,6 +58,7 @@ class UnitResult:
         self.stage_points = {}
         self.capped = 0
         self.bound_done = 0
+        self.bases = []          # (schedule, digest) of base executions, for fresh-process validation
 
 
 def _merge_stats(dst, src):
@@ -125,6 +126,7 @@ def _unit(arg):
         base_digest = exec_digest(base)
         ns = list(base.cs.ns)
         if slice_idx == 0:
+            ur.bases.append((schedule_json(base), base_digest))
             judge(base)
             _stage_hist(base, ur.stage_points)
             if len(ur.samples) < 1:
@@ -202,6 +204,7 @@ def explore(configs, policies, bound, oracle_spec, params=None, jobs=16, seed=0,
             total.errors.extend(ur.errors)
             total.max_points = max(total.max_points, ur.max_points)
             total.capped += ur.capped
+            total.bases.extend(ur.bases)
             _merge_stats(total.stats, ur.stats)
             _merge_stats(total.stage_points, ur.stage_points)
             if len(total.samples) < 4:
@@ -246,6 +249,10 @@ def validate_fresh(total, res, run_kw=None, oracle_spec=None, params=None, extra
     todo = todo[:200]
     for s, d in extra:
         todo.append((s, d))
+    # base schedules are always validated (a fixed, order-independent selection), so that the replay
+    # machinery is exercised on every run, not only when something fails
+    for s, d in sorted(total.bases, key=lambda b: json.dumps(b[0], sort_keys=True))[:12]:
+        todo.append((s, d))
     if not todo:
         return 0
     kw = dict(run_kw or {})
@@ -266,13 +273,19 @@ def _main():
     payload = json.loads(sys.stdin.read())
     sys.argv = [sys.argv[0]]
     hooks = None
+    oracle = None
     if payload.get('oracle'):
-        hooks = getattr(load_oracle(payload['oracle'], payload.get('params') or {}), 'hooks', None)
+        oracle = load_oracle(payload['oracle'], payload.get('params') or {})
+        hooks = getattr(oracle, 'hooks', None)
     out = []
-    for s in payload['schedules']:
-        d1 = exec_digest(run_schedule(s, hooks=hooks, **payload['run_kw']))
-        d2 = exec_digest(run_schedule(s, hooks=hooks, **payload['run_kw']))
-        out.append((d1, d2))
+    try:
+        for s in payload['schedules']:
+            d1 = exec_digest(run_schedule(s, hooks=hooks, **payload['run_kw']))
+            d2 = exec_digest(run_schedule(s, hooks=hooks, **payload['run_kw']))
+            out.append((d1, d2))
+    finally:
+        if oracle is not None and hasattr(oracle, 'finish_unit'):
+            oracle.finish_unit()
     print(json.dumps(out))
 
 
